@@ -146,4 +146,292 @@ theorem Image_header (d : DumpIn) (hn : d.numWriters < 2 ^ 32) (ht : d.timestamp
     a16.imgU32 (by decide), a20.imgU32 ht, a24.imgU64 (by decide)]
   rfl
 
+
+/-- **Image (directory).** slot `k` of the directory holds the `k`-th published entry -/
+theorem Image_dir_entry (d : DumpIn) (k : Nat) (e : DirEnt) (hk : k < d.numWriters) (he : (dumpAcc d).dir[k]? = some e) :
+    At (dumpBytes d) (32 + 12 * k) (serDirEnt e) := by
+  have h1 : ((dumpAcc d).dir.take d.numWriters)[k]? = some e := by
+    rw [List.getElem?_take]; simp [hk, he]
+  have h2 := At.flatMap_const serDirEnt 12 serDirEnt_length _ k e h1
+  have h3 : At (serDirectory d.numWriters (dumpAcc d).dir ++ (dumpAcc d).bytes) (12 * k) (serDirEnt e) := by
+    unfold serDirectory
+    exact (h2.append_right _).append_right _
+  have h4 := At.skip (serHeader d.numWriters 32 d.timestamp) 32 (serHeader_length _ _ _) h3
+  simpa [dumpBytes, List.append_assoc] using h4
+
+/-- a reader's view of one directory slot -/
+theorem Image_dir_read (d : DumpIn) (k : Nat) (e : DirEnt) (hk : k < d.numWriters) (he : (dumpAcc d).dir[k]? = some e)
+    (hf : e.ty < 2 ^ 32 ∧ e.size < 2 ^ 32 ∧ e.rva < 2 ^ 32) :
+    let i := Img.ofBytes (dumpBytes d)
+    i.u32 (32 + 12 * k) = some e.ty ∧ i.u32 (32 + 12 * k + 4) = some e.size ∧ i.u32 (32 + 12 * k + 8) = some e.rva := by
+  intro i
+  have h := Image_dir_entry d k e hk he
+  unfold serDirEnt at h
+  rw [List.append_assoc] at h
+  have h0 := h.sub_head
+  have h1 := (h.next 4 (le_length _ _)).sub_head
+  have h2 := (h.next 4 (le_length _ _)).next 4 (le_length _ _)
+  exact ⟨h0.imgU32 hf.1, h1.imgU32 hf.2.1, h2.imgU32 hf.2.2⟩
+
+-- thread list ----------------------------------------------------------------------------------------------
+
+theorem threadRec_length (pos : Nat) (t : DThread) : (threadRec pos t).length = 48 := by simp [threadRec]
+
+/-- offset of thread `k`'s blobs within the blob area -/
+def blobOff (ts : List DThread) (k : Nat) : Nat := (threadBlobs (ts.take k)).length
+
+theorem threadRecs_at (pos : Nat) (ts : List DThread) (k : Nat) (t : DThread) (h : ts[k]? = some t) :
+    At (threadRecs pos ts) (48 * k) (threadRec (pos + blobOff ts k) t) := by
+  induction ts generalizing pos k with
+  | nil => simp at h
+  | cons a r ih =>
+    cases k with
+    | zero =>
+      simp at h; subst h
+      simp only [threadRecs, blobOff, threadBlobs, List.take_zero, List.flatMap_nil, List.length_nil, Nat.add_zero, Nat.mul_zero]
+      exact At.head _ _
+    | succ k =>
+      have hr : r[k]? = some t := by simpa using h
+      have := ih (pos + a.blob.length) k hr
+      have h2 := At.skip (threadRec pos a) 48 (threadRec_length _ _) this
+      have e1 : 48 + 48 * k = 48 * (k + 1) := by omega
+      have e2 : pos + a.blob.length + blobOff r k = pos + blobOff (a :: r) (k + 1) := by
+        simp only [blobOff, threadBlobs, List.take_succ_cons, List.flatMap_cons, List.length_append]; omega
+      rw [e1, e2] at h2
+      exact h2
+
+theorem threadRecs_length (pos : Nat) (ts : List DThread) : (threadRecs pos ts).length = 48 * ts.length := by
+  induction ts generalizing pos with
+  | nil => rfl
+  | cons a r ih => simp [threadRecs, threadRec_length, ih]; omega
+
+/-- where the thread list body sits in the image -/
+theorem threadList_at (d : DumpIn) :
+    At (dumpBytes d) (32 + 12 * d.numWriters) (threadListBody (32 + 12 * d.numWriters) d.threads) := by
+  have h1 : At (acc1 d).bytes 0 (threadListBody (32 + 12 * d.numWriters) d.threads) := by
+    have : (acc1 d).bytes = [] ++ threadListBody (32 + 12 * d.numWriters) d.threads := by
+      simp [acc1, acc0, stThreadList, Acc.add, Acc.publish, Acc.pos]
+    rw [this]; exact At.end_ [] _
+  have h2 := (ext_1_19 d).at h1
+  rw [← dumpAcc_eq] at h2
+  simpa using dumpBytes_at d h2
+
+/-- position of thread `k`'s blobs in the image -/
+def threadPos (d : DumpIn) (k : Nat) : Nat :=
+  32 + 12 * d.numWriters + 4 + 48 * d.threads.length + blobOff d.threads k
+
+/-- **Image (thread).** Thread `k`'s record occupies slot `k` of the thread list; the stack location it stores is
+    where the captured stack bytes are, the window follows, and the context location it stores is where the
+    context bytes are. -/
+theorem Image_thread (d : DumpIn) (k : Nat) (t : DThread) (hk : d.threads[k]? = some t) :
+    let img := dumpBytes d
+    let p := threadPos d k
+    At img (32 + 12 * d.numWriters + 4 + 48 * k) (threadRec p t) ∧
+    At img p t.stackBytes ∧
+    At img (p + t.stackLen) t.windowBytes ∧
+    At img (t.ctxRva p) t.ctx := by
+  intro img p
+  have hb := threadList_at d
+  unfold threadListBody at hb
+  -- records
+  have hrecs : At img (32 + 12 * d.numWriters + 4) (threadRecs (32 + 12 * d.numWriters + 4 + 48 * d.threads.length) d.threads) := by
+    have := hb.sub (a := le 4 d.threads.length)
+    simpa using this
+  have hrec := threadRecs_at (32 + 12 * d.numWriters + 4 + 48 * d.threads.length) d.threads k t hk
+  have hr : At img (32 + 12 * d.numWriters + 4 + 48 * k) (threadRec p t) := by
+    obtain ⟨pre, post, he, hl⟩ := hrec
+    obtain ⟨pre2, post2, he2, hl2⟩ := hrecs
+    refine ⟨pre2 ++ pre, post ++ post2, ?_, by simp [hl, hl2]⟩
+    rw [he2, he]; simp [List.append_assoc, p, threadPos]
+  -- blobs
+  have hblobs : At img (32 + 12 * d.numWriters + 4 + 48 * d.threads.length) (threadBlobs d.threads) := by
+    have := hb.sub_tail
+    simpa [threadRecs_length, Nat.add_assoc] using this
+  have hblob : At img p t.blob := by
+    have h1 := At.flatMap_take DThread.blob d.threads k t hk
+    obtain ⟨pre, post, he, hl⟩ := h1
+    obtain ⟨pre2, post2, he2, hl2⟩ := hblobs
+    refine ⟨pre2 ++ pre, post ++ post2, ?_, by simp [hl, hl2, p, threadPos, blobOff, threadBlobs]⟩
+    rw [he2]; unfold threadBlobs; rw [he]; simp [List.append_assoc]
+  unfold DThread.blob at hblob
+  have e1 : t.stackBytes.length = t.stackLen := by
+    unfold DThread.stackBytes DThread.stackLen; cases t.stack <;> rfl
+  have e2 : t.windowBytes.length = t.windowLen := by
+    unfold DThread.windowBytes DThread.windowLen; cases t.window <;> rfl
+  refine ⟨hr, (hblob.sub_head).sub_head, ?_, ?_⟩
+  · have := hblob.sub (a := t.stackBytes)
+    rw [e1] at this; exact this
+  · have := hblob.sub_tail
+    rw [List.length_append, e1, e2] at this
+    unfold DThread.ctxRva
+    rw [Nat.add_assoc]; exact this
+
+
+/-- a reader's view of thread `k` -/
+theorem Image_thread_read (d : DumpIn) (k : Nat) (t : DThread) (hk : d.threads[k]? = some t)
+    (hsz : (dumpBytes d).length < 2 ^ 32) (htid : t.tid < 2 ^ 32)
+    (hstart : (match t.stack with | some (s, _) => s | none => t.sp) < 2 ^ 64) :
+    let i := Img.ofBytes (dumpBytes d)
+    let o := 32 + 12 * d.numWriters + 4 + 48 * k
+    let p := threadPos d k
+    i.u32 o = some t.tid ∧ i.u64 (o + 24) = some (match t.stack with | some (s, _) => s | none => t.sp) ∧
+    i.u32 (o + 32) = some t.stackLen ∧ i.u32 (o + 36) = some p ∧
+    i.u32 (o + 40) = some t.ctx.length ∧ i.u32 (o + 44) = some (t.ctxRva p) ∧
+    i.bytes p t.stackLen = some t.stackBytes ∧ i.bytes (t.ctxRva p) t.ctx.length = some t.ctx := by
+  intro i o p
+  obtain ⟨hr, hs, _, hc⟩ := Image_thread d k t hk
+  have e1 : t.stackBytes.length = t.stackLen := by
+    unfold DThread.stackBytes DThread.stackLen; cases t.stack <;> rfl
+  have b1 := hs.inside
+  have b2 := hc.inside
+  rw [e1] at b1
+  have hp : p < 2 ^ 32 := by show threadPos d k < 2 ^ 32; omega
+  have hsl : t.stackLen < 2 ^ 32 := by omega
+  have hcr : t.ctxRva (threadPos d k) < 2 ^ 32 := by omega
+  have hcl : t.ctx.length < 2 ^ 32 := by omega
+  unfold threadRec at hr
+  simp only [List.append_assoc] at hr
+  have f0 := hr.sub_head
+  have r1 := hr.next 4 (le_length _ _)
+  have r2 := r1.next 4 (le_length _ _)
+  have r3 := r2.next 4 (le_length _ _)
+  have r4 := r3.next 4 (le_length _ _)
+  have r5 := r4.next 8 (le_length _ _)
+  have f5 := r5.sub_head
+  have r6 := r5.next 8 (le_length _ _)
+  have f6 := r6.sub_head
+  have r7 := r6.next 4 (le_length _ _)
+  have f7 := r7.sub_head
+  have r8 := r7.next 4 (le_length _ _)
+  have f8 := r8.sub_head
+  have r9 := r8.next 4 (le_length _ _)
+  refine ⟨f0.imgU32 htid, ?_, ?_, ?_, ?_, ?_, ?_, hc.imgBytes⟩
+  · exact (f5.eq_len (by omega)).imgU64 hstart
+  · exact (f6.eq_len (by omega)).imgU32 hsl
+  · exact (f7.eq_len (by omega)).imgU32 hp
+  · exact (f8.eq_len (by omega)).imgU32 hcl
+  · exact (r9.eq_len (by omega)).imgU32 hcr
+  · have := hs.imgBytes; rw [e1] at this; exact this
+
+-- lifting placements of a stage to the image -------------------------------------------------------------
+
+theorem base1 (d : DumpIn) : (acc1 d).base = 32 + 12 * d.numWriters := rfl
+theorem base2 (d : DumpIn) : (acc2 d).base = 32 + 12 * d.numWriters := rfl
+theorem base3 (d : DumpIn) : (acc3 d).base = 32 + 12 * d.numWriters := rfl
+theorem base4 (d : DumpIn) : (acc4 d).base = 32 + 12 * d.numWriters := rfl
+
+/-- what a stage appended at the old end of the accumulator is, in the image, at the old position -/
+theorem lift_pos (d : DumpIn) (a a' : Acc) (body : Bytes) (hb : a.base = 32 + 12 * d.numWriters)
+    (hplace : At a'.bytes a.bytes.length body) (h : Acc.Ext a' (acc19 d)) : At (dumpBytes d) a.pos body := by
+  have h2 := h.at hplace
+  rw [← dumpAcc_eq] at h2
+  have := dumpBytes_at d h2
+  unfold Acc.pos; rw [hb]; exact this
+
+-- memory blocks ----------------------------------------------------------------------------------------------
+
+theorem threadBlocksAt_mem (pos : Nat) (ts : List DThread) (k : Nat) (t : DThread) (h : ts[k]? = some t) :
+    (∀ s b, t.stack = some (s, b) → (⟨s, b.length, pos + blobOff ts k⟩ : Desc) ∈ threadBlocksAt pos ts) ∧
+    (∀ s b, t.window = some (s, b) → (⟨s, b.length, pos + blobOff ts k + t.stackLen⟩ : Desc) ∈ threadBlocksAt pos ts) := by
+  induction ts generalizing pos k with
+  | nil => simp at h
+  | cons a r ih =>
+    cases k with
+    | zero =>
+      simp at h; subst h
+      constructor
+      · intro s b hs
+        simp [threadBlocksAt, hs, blobOff, threadBlobs]
+      · intro s b hw
+        simp [threadBlocksAt, hw, blobOff, threadBlobs]
+    | succ k =>
+      have hr : r[k]? = some t := by simpa using h
+      have := ih (pos + a.blob.length) k hr
+      have e2 : pos + a.blob.length + blobOff r k = pos + blobOff (a :: r) (k + 1) := by
+        simp only [blobOff, threadBlobs, List.take_succ_cons, List.flatMap_cons, List.length_append]; omega
+      rw [e2] at this
+      constructor
+      · intro s b hs
+        simp only [threadBlocksAt, List.mem_append]
+        exact Or.inr (this.1 s b hs)
+      · intro s b hw
+        simp only [threadBlocksAt, List.mem_append]
+        exact Or.inr (this.2 s b hw)
+
+def appOff (app : List (Nat × Bytes)) (j : Nat) : Nat := (appBlobs (app.take j)).length
+
+theorem appBlocksAt_mem (pos : Nat) (app : List (Nat × Bytes)) (j : Nat) (a : Nat) (b : Bytes) (h : app[j]? = some (a, b)) :
+    (⟨a, b.length, pos + appOff app j⟩ : Desc) ∈ appBlocksAt pos app := by
+  induction app generalizing pos j with
+  | nil => simp at h
+  | cons x r ih =>
+    obtain ⟨xa, xb⟩ := x
+    cases j with
+    | zero =>
+      simp at h; obtain ⟨h1, h2⟩ := h; subst h1; subst h2
+      simp [appBlocksAt, appOff, appBlobs]
+    | succ j =>
+      have hr : r[j]? = some (a, b) := by simpa using h
+      have := ih (pos + xb.length) j hr
+      have e : pos + xb.length + appOff r j = pos + appOff ((xa, xb) :: r) (j + 1) := by
+        simp only [appOff, appBlobs, List.take_succ_cons, List.flatMap_cons, List.length_append]; omega
+      rw [e] at this
+      simp only [appBlocksAt, List.mem_cons]
+      exact Or.inr this
+
+theorem blocks3 (d : DumpIn) :
+    (acc3 d).blocks = threadBlocksAt (32 + 12 * d.numWriters + 4 + 48 * d.threads.length) d.threads ++
+      appBlocksAt (acc2 d).pos d.app := by
+  simp [acc3, acc2, acc1, acc0, stApp, stModules, stThreadList, Acc.add, Acc.publish, Acc.pos]
+
+/-- **Image (stacks and windows are registered).** every captured stack and every instruction-pointer window is a
+    memory-list block whose location is where its bytes are — the same location the thread record stores -/
+theorem Image_thread_block (d : DumpIn) (k : Nat) (t : DThread) (hk : d.threads[k]? = some t) :
+    (∀ s b, t.stack = some (s, b) →
+      (⟨s, b.length, threadPos d k⟩ : Desc) ∈ (acc3 d).blocks ∧ At (dumpBytes d) (threadPos d k) b) ∧
+    (∀ s b, t.window = some (s, b) →
+      (⟨s, b.length, threadPos d k + t.stackLen⟩ : Desc) ∈ (acc3 d).blocks ∧ At (dumpBytes d) (threadPos d k + t.stackLen) b) := by
+  obtain ⟨_, hs, hw, _⟩ := Image_thread d k t hk
+  have hm := threadBlocksAt_mem (32 + 12 * d.numWriters + 4 + 48 * d.threads.length) d.threads k t hk
+  rw [blocks3]
+  constructor
+  · intro s b h
+    refine ⟨List.mem_append_left _ (hm.1 s b h), ?_⟩
+    have : t.stackBytes = b := by simp [DThread.stackBytes, h]
+    rw [← this]; exact hs
+  · intro s b h
+    refine ⟨List.mem_append_left _ (hm.2 s b h), ?_⟩
+    have : t.windowBytes = b := by simp [DThread.windowBytes, h]
+    rw [← this]; exact hw
+
+/-- **Image (application regions are registered).** -/
+theorem Image_app_block (d : DumpIn) (j : Nat) (a : Nat) (b : Bytes) (hj : d.app[j]? = some (a, b)) :
+    (⟨a, b.length, (acc2 d).pos + appOff d.app j⟩ : Desc) ∈ (acc3 d).blocks ∧
+    At (dumpBytes d) ((acc2 d).pos + appOff d.app j) b := by
+  rw [blocks3]
+  refine ⟨List.mem_append_right _ (appBlocksAt_mem _ _ j a b hj), ?_⟩
+  have hplace : At (acc3 d).bytes (acc2 d).bytes.length (appBlobs d.app) := by
+    show At ((acc2 d).bytes ++ appBlobs d.app) _ _
+    exact At.end_ _ _
+  have h1 := lift_pos d (acc2 d) (acc3 d) _ (base2 d) hplace (ext_3_19 d)
+  have h2 := At.flatMap_take (fun (x : Nat × Bytes) => x.2) d.app j (a, b) hj
+  obtain ⟨pre, post, he, hl⟩ := h2
+  obtain ⟨pre2, post2, he2, hl2⟩ := h1
+  refine ⟨pre2 ++ pre, post ++ post2, ?_, by simp [hl, hl2, appOff, appBlobs]⟩
+  rw [he2]; unfold appBlobs; rw [he]; simp [List.append_assoc]
+
+/-- **Image (memory list).** the memory-list stream — published in directory slot 2 — is the serialised list of
+    registered blocks: stacks and windows in thread order, then the application regions -/
+theorem Image_memory_list (d : DumpIn) :
+    (dumpAcc d).dir[2]? = some ⟨ST_MEMORY_LIST, 4 + 16 * (acc3 d).blocks.length, (acc3 d).pos⟩ ∧
+    At (dumpBytes d) (acc3 d).pos (memoryListStream (acc3 d).blocks) := by
+  constructor
+  · rw [dumpAcc_eq]
+    apply (ext_4_19 d).dir
+    simp [acc4, acc3, acc2, acc1, acc0, stMemoryList, stApp, stModules, stThreadList, Acc.add, Acc.publish]
+  · have hplace : At (acc4 d).bytes (acc3 d).bytes.length (memoryListStream (acc3 d).blocks) := by
+      show At ((acc3 d).bytes ++ _) _ _
+      exact At.end_ _ _
+    exact lift_pos d (acc3 d) (acc4 d) _ (base3 d) hplace (ext_4_19 d)
+
 end Mdw
